@@ -42,10 +42,8 @@ def propConceal (first last : Nat) (ms out : List Message) : String :=
   if lapsSeqB lapPH ms && !noLeakB lapPH first last ms out then "fail:lap-position-into-concealed" else
   if lapsSeqB sesPH ms && !noLeakB sesPH first last ms out then "fail:session-position-into-concealed" else "ok"
 
-def kfConceal (first last : Nat) (ms : List Message) : String :=
-  let ids := (if unitsDisagree lapPH first ms || unitsDisagree sesPH first ms then ["KF-C20-1"] else []) ++
-    (if allConcealedAtEnd last ms then ["KF-C20-2"] else [])
-  if ids.isEmpty then "-" else ",".intercalate ids
+def kfConceal (first _last : Nat) (ms : List Message) : String :=
+  if unitsDisagree lapPH first ms || unitsDisagree sesPH first ms then "KF-C20-1" else "-"
 
 def hConceal : Handler := fun r =>
   match r.args with
